@@ -1,8 +1,8 @@
 """C17 — shutdown is graceful and complete."""
 import re
 
-from .lib import callers, closure_of_operand
-from .lib_c16 import (SERVE, SPAWN, accept_arms, after_await, awaits, exits_only_on_close_signal, field_places, give_up_sites, loop_exits, return_defs,
+from .lib import callers, closure_of_operand, result_split
+from .lib_c16 import (SERVE, SPAWN, accept_arms, after_await, await_payloads, awaits, coroutine_of_operand, exits_only_on_close_signal, field_places, give_up_sites, loop_exits, return_defs,
                       server_task, slice_has_call_at)
 
 LEVEL = "other"
@@ -62,11 +62,11 @@ def _join_coroutine(ctx, R, st):
     sl = st.slice(op)
     cos = []
     for c, cb, ct in sl.calls(r"FutureExt::boxed$|boxed::Box::<T>::pin$"):
-        g, node = closure_of_operand(st, ct["args"][0])
+        g, node = coroutine_of_operand(st, ct["args"][0])     # an async block, or the future of a crate-local async fn
         if g is not None and g.raw.get("coroutine"):
             cos.append((g, node))
     if len(cos) != 1:
-        ctx.lost(R, "the async block that is boxed into join_future (%d found)" % len(cos))
+        ctx.lost(R, "the async block / async fn future that is boxed into join_future (%d found)" % len(cos))
         return None
     return cos[0][0], cos[0][1], sl, (st, bb)
 
@@ -219,9 +219,16 @@ def r3_join_waits(ctx):
     ctx.check(R, "ok-only-after-server-task", ok, "Ok sites of the join future: %d, all after the Ready edge of the server-task await: %s" % (len(oks), ok), jc)
     ok = len(waw) == 1 and bool(oks) and all(after_await(jc, waw[0], b) for b in oks)
     ctx.check(R, "ok-only-after-waitgroup", ok, "Ok sites of the join future: %d, all after the Ready edge of WaitGroup::wait().await: %s" % (len(oks), ok), (jc, wbb))
-    # only Err leaves early, and only from the server-task result
-    other = sorted(set(tag for b, tag in rd if tag not in ("Ok", "residual")))
-    ctx.check(R, "early-exit-only-with-the-task-error", not other, "values the join future can yield: Ok after the waits, or the `?`-propagated server-task error; other: %s" % other, jc)
+    # only an error leaves early, and only on the error side of the server task's own result -- whether that is
+    # written `.map_err(..)?`, `match .. { Err(e) => return Err(..) }`, `if let Err(..)` or let-else
+    splits = [sp for sp in (result_split(jc, l) for l in await_payloads(jc, jh[0])) if sp is not None]
+    early = [(b, tag) for b, tag in rd if tag != "Ok"]
+    if early and not splits:
+        ctx.lost(R, "the place where the server task's JoinHandle result is split into Ok / Err")
+        return
+    stray = sorted(set(tag for b, tag in early if not any(jc.edge_dominates(sp["switch_bb"], sp["err"], b) and sp["err"] != sp["ok"] for sp in splits)))
+    ctx.check(R, "early-exit-only-with-the-task-error", not stray,
+              "values the join future can yield: Ok after the waits, or an error on the Err side of the server task's result (%d such site(s)); elsewhere: %s" % (len(early), stray), jc)
     # the wait group is the starter's; its worker is the one in DropshotState
     wops = _upvar_ops(st, jnode, jc, jc.slice(wt["args"][0]))
     from_starter = len(wops) == 1 and st.slice(wops[0]).reads_field("handler_waitgroup") and st.slice(wops[0]).params() == [1]
